@@ -51,7 +51,30 @@ if [ ! -x "$BIN" ]; then
     export GOFLAGS="-mod=mod -modfile=$OUT/go.mod"
   fi
   if [ ! -f $OUT/overlay.json ]; then
-    $WORK/bin/instr.$H -out $OUT/ov -overlay $OUT/overlay.json -mod $V/sim -inject $V/sim/inject -ospkgs $OSPKGS $PKGS >&2
+    $WORK/bin/instr.$H -out $OUT/ov -overlay $OUT/overlay.json.tmp -mod $V/sim -inject $V/sim/inject -ospkgs $OSPKGS $PKGS >&2
+    # ServeUDP takes a concrete *net.UDPConn: in the overlay copy its parameter becomes the
+    # interface of sim/inject/.../pkg/server/zz_verif_udp.go, so the real loop runs on a simulated socket.
+    python3 - $OUT $REPO <<'PYEOF' >&2
+import json, re, sys, os
+out, repo = sys.argv[1], sys.argv[2]
+ovf = out + "/overlay.json.tmp"
+ov = json.load(open(ovf))
+src = repo + "/pkg/server/udp.go"
+dst = ov["Replace"].get(src)
+if dst is None:
+    dst = out + "/ov/github.com/IrineSistiana/mosdns/v5/pkg/server/udp.go"
+    os.makedirs(os.path.dirname(dst), exist_ok=True)
+    open(dst, "w").write(open(src).read())
+    ov["Replace"][src] = dst
+s = open(dst).read()
+s, n1 = re.subn(r"func ServeUDP\((\w+) \*net\.UDPConn,", r"func ServeUDP(\1 verifUDPConn,", s)
+s, n2 = re.subn(r"initOobHandler\((\w+)\)", r"verifInitOob(\1)", s)
+if n1 != 1 or n2 < 1:
+    sys.exit("build.sh: cannot put ServeUDP on a simulated socket (signature changed)")
+open(dst, "w").write(s)
+json.dump(ov, open(ovf, "w"))
+PYEOF
+    mv $OUT/overlay.json.tmp $OUT/overlay.json
   fi
   if [ "$MODE" = race ]; then
     go test -c -race -overlay $OUT/overlay.json -o $BIN.tmp ./h >&2
